@@ -12,6 +12,8 @@ Bounded-exhaustive enumeration (engine E4, engines/enumerate.py):
       query tuples of the profile (all ordered pairs, triples, ...),
   (w) repo.get_walker(include, exclude, order, reverse, max_entries, since, until) for every
       include set (<=2 tips), exclude set (<=1/2 tips) and option row of the profile,
+  (d) "deep" two-chain histories with 7 (quick) / 8 (thorough) commits under monotone clocks, so
+      that the walker's cut-off slop (_MAX_EXTRA_COMMITS) is actually exhausted,
   (x) the same histories written as loose objects into one scratch C-git repository per worker
       (identical object ids): `git merge-base --all / --octopus --all / --is-ancestor /
       --independent`, `git rev-list [--topo-order] [--max-age/--min-age]` validate the reference
